@@ -705,7 +705,7 @@ fn pass2(fs_: &FileSpec, text1: &str, is_root: bool, map: &mut Vec<BTreeMap<Stri
     let header_pos = file.items.first().map(|i| src.start(i)).unwrap_or(src.text.len());
     let mut header = String::new();
     if !fs_.items.is_empty() || !fs_.header.is_empty() {
-        header.push_str("#[allow(unused_imports)] use vstd::prelude::*;\n");
+        header.push_str("#[allow(unused_imports)] use vstd::prelude::*;\n#[allow(unused_imports)] use vstd::std_specs::iter::*;\n");
         if !is_root {
             header.push_str("#[allow(unused_imports)] use crate::vx::*;\n");
         }
